@@ -14,9 +14,9 @@ cp _seed/notes.md $OUT/notes.md 2>/dev/null
 R1=$( (go build ./... && go test -count=1 ./... ) 2>&1 | grep -cE "^(FAIL|---)" )
 cp _seed/demo_test.go $DEMODIR/zz_seed_demo_test.go
 go test -count=1 -run 'TestSeedDemo' ./$DEMODIR > $OUT/demo_with_change.log 2>&1; R2=$?
-git stash -q -- $(git diff --name-only)
+git apply -R $OUT/patch.diff
 go test -count=1 -run 'TestSeedDemo' ./$DEMODIR > $OUT/demo_without_change.log 2>&1; R3=$?
-git stash pop -q
+git apply $OUT/patch.diff
 rm -f $DEMODIR/zz_seed_demo_test.go
 echo "suite-failures-with-change=$R1 demo-with-change-exit=$R2 (want !=0) demo-without-change-exit=$R3 (want 0)"
 cd /verif
